@@ -15,7 +15,20 @@ def _inline(fi):
     """Return expression of a straight-line function with single-assignment locals inlined, or None."""
     env = {}
     ret = None
-    for st in fi.node.body:
+    body = list(fi.node.body)
+    for k, st in enumerate(body):
+        # `if A > B: return A` followed by `return B` (or as if/else, or with < and the returns swapped) is `return max(A, B)`
+        if isinstance(st, ast.If) and isinstance(st.test, ast.Compare) and len(st.test.ops) == 1 and \
+                isinstance(st.test.ops[0], (ast.Gt, ast.GtE, ast.Lt, ast.LtE)) and len(st.body) == 1 and isinstance(st.body[0], ast.Return):
+            other = st.orelse[0] if (len(st.orelse) == 1 and isinstance(st.orelse[0], ast.Return)) else \
+                (body[k + 1] if (not st.orelse and k + 1 < len(body) and isinstance(body[k + 1], ast.Return)) else None)
+            if other is not None and st.body[0].value is not None and other.value is not None:
+                l, r_ = _subst(st.test.left, env), _subst(st.test.comparators[0], env)
+                x, y = _subst(st.body[0].value, env), _subst(other.value, env)
+                big, small = (l, r_) if isinstance(st.test.ops[0], (ast.Gt, ast.GtE)) else (r_, l)
+                if ast.dump(x) == ast.dump(big) and ast.dump(y) == ast.dump(small):
+                    return ast.Call(func=ast.Name(id="max", ctx=ast.Load()), args=[l, r_], keywords=[])
+            return None
         if isinstance(st, ast.Expr) and isinstance(st.value, ast.Constant):
             continue
         if isinstance(st, ast.Expr) and isinstance(st.value, ast.Call):
